@@ -833,6 +833,11 @@ fn drive_api<A: Api>(scn: &ReadScn, cfg: &Cfg, targets: &SeekTargets) -> RunLog 
                     continue;
                 }
                 if let Some(snap) = &snaps[s] {
+                    // (sets of hundreds of records: re-read after set-level operations and every
+                    // 32nd step only, the comparison is linear in the set)
+                    if snap.len() > 64 && !matches!(op, Op::ReadSet(_) | Op::ReadSetExact(_, _) | Op::IterSet(_) | Op::ShrinkSet(_) | Op::Restart(_) | Op::Drain | Op::SetPolicy(_)) && log.steps.len() % 32 != 31 {
+                        continue;
+                    }
                     let set = &sets[s];
                     match vcore::catch(|| A::iter_set(set, &mut quiet)) {
                         Ok(v) => {
